@@ -7,6 +7,9 @@ One literal per line, so (line, value) identifies an occurrence.
 """
 from __future__ import annotations
 
+# header comments end in non-ASCII text: from there on byte offsets and character offsets differ (Latin-1 supplement, Thai, CJK, astral plane)
+NON_ASCII = " \u2014 g\u00e9n\u00e9r\u00e9 \u0e2a\u0e23\u0e49\u0e32\u0e07 \u751f\u6210 \U0001f600"
+
 INT_POOL = [7, 12, 13, 17, 23, 37, 42, 60, 64, 99, 128, 255, 256, 360, 404, 500, 512, 1024, 3600, 4096, 8080, 65535, 86400, 123456]
 SMALL = [0, 1, 2, 3, 4, 5, 6, 8, 9, 10, 11, 15, 20, 21]
 FLOATS = ["1.5", "2.75", "0.25", "3.14159", "99.9", "2.5e-3", "6.02e23", "0.001", "0.0"]
@@ -94,7 +97,7 @@ def gen_py(rng, n_items=30, max_small=10, forms=True):
     def nx():
         n[0] += 1
         return n[0]
-    b.add('"""Generated literals module."""')
+    b.add('"""Generated literals module%s."""' % NON_ASCII)
     b.add("import os")
     b.add("from typing import Final")
     b.add("")
@@ -222,7 +225,7 @@ def gen_ts(rng, n_items=25, js=False, forms=True):
         n[0] += 1
         return n[0]
     ty = (lambda s: "") if js else (lambda s: s)
-    b.add("// Generated literals module")
+    b.add("// Generated literals module" + NON_ASCII)
     for _ in range(rng.randint(0, 3)):
         t, v = ts_literal(rng, used, forms)
         b.add(rng.choice(["const %s = %s;", "const %s = -%s;", "export const %s = %s;"] + ([] if js else ["const %s: number = %s;", "const %s = %s as const;"]))
@@ -330,7 +333,7 @@ def gen_rs(rng, n_items=25, forms=True):
     def nx():
         n[0] += 1
         return n[0]
-    b.add("// Generated literals module")
+    b.add("// Generated literals module" + NON_ASCII)
     for _ in range(rng.randint(0, 3)):
         t, v = rs_literal(rng, used, False)
         kind = rng.choice(["const", "static"])
